@@ -41,6 +41,37 @@ class Split(str, Enum):
     TEST = 'test'
 
 
+# enum classes NESTED in holder classes: `__qualname__` has a dot ('ModelA.Variant'); same `__name__` in two holders and
+# at module level; a holder two levels deep; an int-mixin one.  serialize_class writes module + '.' + qualname,
+# deserialize_class finds them by importing the longest importable prefix (labtech 8be0759, defect D26)
+class Variant(Enum):
+    SMALL = 1
+    LARGE = 2
+
+
+class ModelA:
+    class Variant(Enum):
+        SMALL = 1
+        LARGE = 2
+
+    class Level(IntEnum):
+        LOW = 0
+        HIGH = 1
+
+
+class ModelB:
+    class Variant(Enum):
+        SMALL = 1
+        LARGE = 2
+
+
+class Outer:
+    class Inner:
+        class Kind(Enum):
+            SMALL = 'small'
+            OTHER = 'other'
+
+
 class JsonCache(BaseCache):
     """a second cache format sharing the storage with PickleCache"""
     KEY_PREFIX = 'json__'
